@@ -854,8 +854,40 @@ def oracle_f(c, impl):
     return None
 
 
+SOFF_FORMS = ['ellipsis', 'ell_full', 'ell_int', 'ell_slice', 'pair']
+
+
+def run_soff(c):
+    """helper.slice_offset on every form of index expression a cropped sub-array can be described with"""
+    lentil = C.import_lentil()
+    r0, r1, c0, c1 = c['box']
+    sl = {'ellipsis': Ellipsis, 'ell_full': (Ellipsis, slice(None, None, None)), 'ell_int': (Ellipsis, 2),
+          'ell_slice': (Ellipsis, slice(1, 3)), 'pair': np.s_[r0:r1, c0:c1]}[c['form']]
+    try:
+        o = lentil.helper.slice_offset(sl, tuple(c['shape']))
+    except Exception as e:
+        return {'err': type(e).__name__}
+    return {'off': [int(o[0]), int(o[1])]}
+
+
+def oracle_soff(c, impl):
+    n, m = c['shape']
+    r0, r1, c0, c1 = c['box']
+    if c['form'] in ('ellipsis', 'ell_full'):
+        want = {'off': [0, 0]}                      # the whole array: no offset
+    elif c['form'] in ('ell_int', 'ell_slice'):
+        want = {'err': 'ValueError'}                # the offset cannot be known: refused
+    else:
+        want = {'off': [r0 + (r1 - r0) // 2 - n // 2, c0 + (c1 - c0) // 2 - m // 2]}
+    return None if impl == want else f'slice_offset({c["form"]} {c["box"]}, {c["shape"]}) gives {impl}, expected {want}'
+
+
 def generate(rng, tier):
     quick = tier == 'quick'
+    for form in SOFF_FORMS + ['pair'] * 4:
+        n, m = rng.randint(2, 9), rng.randint(2, 9)
+        r0, c0 = rng.randint(0, n - 1), rng.randint(0, m - 1)
+        yield {'op': 'soff', 'form': form, 'shape': [n, m], 'box': [r0, rng.randint(r0 + 1, n), c0, rng.randint(c0 + 1, m)]}
     out = tries = 0
     while out < (30 if quick else 400) and tries < 100000:
         tries += 1
@@ -926,6 +958,8 @@ def generate(rng, tier):
 
 
 def classify(c):
+    if c['op'] == 'soff':
+        return 'soff/' + c['form']
     if c['op'] == 'relay':
         return 'relay/' + str(c['planes'][0]['k']) + ('/stop' if c['stop'] else '')
     if c['op'] in ('fseg', 'fcrop'):
@@ -943,6 +977,8 @@ def classify(c):
 
 
 def nontrivial(c):
+    if c['op'] == 'soff':
+        return c['form'] == 'pair'
     if c['op'] == 'relay':
         return True
     if c['op'] in ('fseg', 'fcrop'):
@@ -973,6 +1009,8 @@ def enc_call(c):
 
 
 def encode(c):
+    if c['op'] == 'soff':
+        return None          # index-expression forms: decided by the oracle (slice pairs are also in the translation layer)
     if c['op'] == 'relay':
         return encode_relay(c)
     if c['op'] in ('fseg', 'fcrop'):
@@ -1115,6 +1153,8 @@ def unscale(v, f):
 
 
 def run_impl(c):
+    if c['op'] == 'soff':
+        return run_soff(c)
     if c['op'] == 'relay':
         return run_relay(c)
     if c['op'] in ('fseg', 'fcrop'):
@@ -1276,6 +1316,8 @@ def oracle_rescaled_pointwise(c, impl):
 
 
 def oracle(c, impl):
+    if c['op'] == 'soff':
+        return oracle_soff(c, impl)
     if c['op'] == 'relay':
         return oracle_relay(c, impl)
     if c['op'] in ('fseg', 'fcrop'):
